@@ -59,7 +59,10 @@ pub fn k8(dir: &str, thorough: bool, seed: u64) {
     let mut out = Out::new(dir, "k8");
     let mut rng = Rng::new(seed ^ 0x88);
     let n = if thorough { 400 } else { 40 };
-    let label_pool = ["s1", "a.b", "9x-y", "full", "formula-0", "formula-1", "X", "model", "formulae.txt", "d_1", "é", "a.bdd", ".x"];
+    // flat labels, labels that look like the archive's own entries, and NESTED labels (entries in a sub-directory), two of
+    // them with the same last component
+    let label_pool = ["s1", "a.b", "9x-y", "full", "formula-0", "formula-1", "X", "model", "formulae.txt", "d_1", "é", "a.bdd", ".x",
+        "formulae", "Apoptosis", "attr", "backup/attr", "grp/only", "x/y/z", "grp/.h"];
     let formats = ["aeon", "bnet", "sbml"];
     for i in 0..n {
         let (name, aeon) = NETWORKS[rng.below(NETWORKS.len())];
